@@ -73,12 +73,32 @@ def parse_str{i}(value):
 def serialize_str{i}(value):
     CALLS.append(("serialize", {i}, repr(value)))
     return "S{i}:" + str(value)
+
+
+def parse_shared{i}(value):
+    CALLS.append(("parse", {i}, repr(value)))
+    return SHARED(value)
+
+
+def serialize_shared{i}(value):
+    CALLS.append(("serialize", {i}, repr(value)))
+    return "ser{i}:" + str(getattr(value, "raw", value))
+'''
+
+# one Python class shared by several GraphQL scalars, and called like one of them (scalar Decimal -> decimal.Decimal next to scalar Money -> decimal.Decimal)
+CSM_SHARED = '''
+
+class {name}(Tok):
+    pass
+
+
+SHARED = {name}
 '''
 
 VARIANTS = ["both", "parse_str", "serialize_str", "native_datetime", "deprecated_import", "unconfigured", "both", "ctor_parse"]
 
 
-def scalar_config(i: int, variant: str) -> Dict[str, str]:
+def scalar_config(i: int, variant: str, shared_name: str = "Shared") -> Dict[str, str]:
     if variant == "both":
         return {"type": ".csm.Tok%d" % i, "parse": ".csm.parse_tok%d" % i, "serialize": ".csm.serialize_tok%d" % i}
     if variant == "parse_str":
@@ -89,6 +109,8 @@ def scalar_config(i: int, variant: str) -> Dict[str, str]:
         return {"type": "datetime.datetime"}
     if variant == "ctor_parse":
         return {"type": ".csm.Ctor%d" % i, "parse": ".csm.Ctor%d" % i, "serialize": ".csm.serialize_tok%d" % i}
+    if variant == "shared_cls":
+        return {"type": ".csm.%s" % shared_name, "parse": ".csm.parse_shared%d" % i, "serialize": ".csm.serialize_shared%d" % i}
     if variant == "deprecated_import":
         return {"type": "Tok%d" % i, "parse": "parse_tok%d" % i, "serialize": "serialize_tok%d" % i, "import": ".csm"}
     raise KeyError(variant)
@@ -168,14 +190,15 @@ def worker(case: Dict[str, Any]) -> CaseResult:
     if len(scalars) >= 2 and case["idx"] % 7 in (3, 5):
         # several GraphQL scalars sharing one Python type, each with its own functions
         # (serialize-only for one residue, parse-only for the other: each function must still be imported and called for its own scalar)
-        variant_of = {n: ("serialize_str" if case["idx"] % 7 == 3 else "parse_str") for n in scalars}
+        variant_of = {n: ("serialize_str" if case["idx"] % 7 == 3 else ("parse_str" if case["idx"] % 14 == 5 else "shared_cls")) for n in scalars}
     if uploads and case["idx"] % 8 == 2:
         # pydantic-native values next to files: the multipart route has to serialise them like the JSON route does
         variant_of = {n: "native_datetime" for n in scalars}
     index_of = {n: i for i, n in enumerate(scalars)}
-    csm = CSM_HEADER + "".join(CSM_PER_SCALAR.format(i=i) for i in range(len(scalars)))
+    shared_name = scalars[-1]
+    csm = CSM_HEADER + CSM_SHARED.format(name=shared_name) + "".join(CSM_PER_SCALAR.format(i=i) for i in range(len(scalars)))
     cfg_full = {k: v for k, v in case["cfg"].items() if not k.startswith("_")}
-    cfg_full["scalars"] = {n: scalar_config(index_of[n], v) for n, v in variant_of.items() if v != "unconfigured"}
+    cfg_full["scalars"] = {n: scalar_config(index_of[n], v, shared_name) for n, v in variant_of.items() if v != "unconfigured"}
     for n, v in variant_of.items():
         feats.add("scalar.config." + v)
     queries = "\n\n".join(frs + ops)
@@ -220,6 +243,8 @@ def worker(case: Dict[str, Any]) -> CaseResult:
             i = index_of.get(name)
             if v in ("both", "deprecated_import"):
                 return getattr(csm_mod, "Tok%d" % i)(token)
+            if v == "shared_cls":
+                return csm_mod.SHARED(token)
             if v == "ctor_parse":
                 obj = getattr(csm_mod, "Tok%d" % i)(token)  # built without logging a parse call
                 obj.__class__ = getattr(csm_mod, "Ctor%d" % i)
@@ -231,7 +256,7 @@ def worker(case: Dict[str, Any]) -> CaseResult:
         def in_wire(name: str, token: Any) -> Any:
             v = variant_of.get(name)
             i = index_of.get(name)
-            if v in ("both", "deprecated_import", "ctor_parse"):
+            if v in ("both", "deprecated_import", "ctor_parse", "shared_cls"):
                 return "ser%d:%s" % (i, token)
             if v == "serialize_str":
                 return "S%d:%s" % (i, token)
@@ -240,6 +265,8 @@ def worker(case: Dict[str, Any]) -> CaseResult:
         def out_expect(name):
             v = variant_of.get(name)
             i = index_of.get(name)
+            if v == "shared_cls":
+                return lambda raw: csm_mod.SHARED(raw)
             if v in ("both", "deprecated_import"):
                 return lambda raw: getattr(csm_mod, "Tok%d" % i)(raw)
             if v == "ctor_parse":
@@ -287,7 +314,7 @@ def worker(case: Dict[str, Any]) -> CaseResult:
                 if isinstance(t, GraphQLInputObjectType):
                     return {k: go(t.fields[k].type, v) for k, v in x.items()}
                 if isinstance(t, GraphQLScalarType) and t.name in variant_of:
-                    if variant_of[t.name] in ("both", "deprecated_import", "serialize_str", "ctor_parse"):
+                    if variant_of[t.name] in ("both", "deprecated_import", "serialize_str", "ctor_parse", "shared_cls"):
                         occ.append((index_of[t.name], x))
                     return in_wire(t.name, x)
                 return x
@@ -326,7 +353,7 @@ def worker(case: Dict[str, Any]) -> CaseResult:
                     vname = vd.variable.name.value
                     t = type_from_ast(schema_ref, vd.type)
                     named = get_named_type(t)
-                    is_cfg_scalar = isinstance(named, GraphQLScalarType) and variant_of.get(named.name) in ("both", "deprecated_import", "serialize_str", "ctor_parse")
+                    is_cfg_scalar = isinstance(named, GraphQLScalarType) and variant_of.get(named.name) in ("both", "deprecated_import", "serialize_str", "ctor_parse", "shared_cls")
                     v = tree[vname]
                     si_ = index_of.get(named.name)
                     if is_cfg_scalar and str(t).startswith("["):
@@ -426,7 +453,7 @@ def worker(case: Dict[str, Any]) -> CaseResult:
                         continue
                     t = oracles.type_at(world.types, path)
                     named = get_named_type(t) if t is not None else None
-                    if isinstance(named, GraphQLScalarType) and variant_of.get(named.name) in ("both", "deprecated_import", "parse_str", "ctor_parse"):
+                    if isinstance(named, GraphQLScalarType) and variant_of.get(named.name) in ("both", "deprecated_import", "parse_str", "ctor_parse", "shared_cls"):
                         parse_want.append((index_of[named.name], repr(raw)))
                         where[repr(raw)] = path
                 parse_calls = sorted((i, a) for k, i, a in calls if k == "parse")
@@ -458,7 +485,7 @@ def worker(case: Dict[str, Any]) -> CaseResult:
                 count("builder_probe_skipped")
             else:
                 py_of = dict(zip(arg_names, params))
-                ser_variants = ("both", "deprecated_import", "serialize_str", "ctor_parse")
+                ser_variants = ("both", "deprecated_import", "serialize_str", "ctor_parse", "shared_cls")
                 for script, num in (("truthy", 7), ("falsy", 20), ("optional-given", 40), ("optional-none", 13)):
                     kwargs, want_values, want_args, ser_want = {}, [], [], []
                     for k, n in enumerate(scalars):
